@@ -81,6 +81,12 @@ pub struct Interpreter<TStdlib: Stdlib, TStdIn: Input, TStdOut: Printer, TLpt1: 
     data_segment: DataSegment,
 
     def_seg: Option<usize>,
+
+    #[cfg(feature = "verif")]
+    verif_monitor: Option<Box<dyn super::verif::Monitor>>,
+
+    #[cfg(feature = "verif")]
+    verif_stopped: bool,
 }
 
 impl<TStdlib: Stdlib, TStdIn: Input, TStdOut: Printer, TLpt1: Printer> InterpreterTrait
@@ -191,6 +197,10 @@ impl<TStdlib: Stdlib, TStdIn: Input, TStdOut: Printer, TLpt1: Printer> Interpret
             nearest_statement_finder: NearestStatementFinder::new(statement_addresses),
         };
         while i < instructions.len() && !ctx.halt {
+            #[cfg(feature = "verif")]
+            if self.verif_before(i, &instructions[i].element) {
+                break;
+            }
             let instruction = &instructions[i].element;
             let pos = instructions[i].pos();
             match self.interpret_one(i, instruction, pos, &mut ctx) {
@@ -274,6 +284,10 @@ impl<TStdlib: Stdlib, TStdIn: Input, TStdOut: Printer, TLpt1: Printer>
             print_state: PrintState::new(),
             data_segment: DataSegment::default(),
             def_seg: None,
+            #[cfg(feature = "verif")]
+            verif_monitor: None,
+            #[cfg(feature = "verif")]
+            verif_stopped: false,
         }
     }
 
@@ -628,6 +642,71 @@ impl<TStdlib: Stdlib, TStdIn: Input, TStdOut: Printer, TLpt1: Printer>
         match self.last_error_address.take() {
             Some(a) => Ok(a),
             None => Err(RuntimeError::ResumeWithoutError),
+        }
+    }
+}
+
+#[cfg(feature = "verif")]
+impl<TStdlib: Stdlib, TStdIn: Input, TStdOut: Printer, TLpt1: Printer>
+    Interpreter<TStdlib, TStdIn, TStdOut, TLpt1>
+{
+    pub fn verif_set_monitor(&mut self, monitor: Option<Box<dyn super::verif::Monitor>>) {
+        self.verif_monitor = monitor;
+    }
+
+    pub fn verif_stopped(&self) -> bool {
+        self.verif_stopped
+    }
+
+    fn verif_depths(&self) -> super::verif::Depths {
+        super::verif::Depths {
+            value_stack: self.value_stack.len(),
+            register_stack: self.register_stack.len(),
+            var_path_stack: self.var_path_stack.len(),
+            by_ref_stack: self.by_ref_stack.len(),
+            return_address_stack: self.return_address_stack.len(),
+            go_sub_address_stack: self.go_sub_address_stack.len(),
+            stacktrace: self.stacktrace.len(),
+            states: self.context.verif_states().len(),
+            memory_blocks: self.context.verif_blocks().len(),
+        }
+    }
+
+    /// Notifies the monitor before an instruction is executed. Returns true if the monitor wants to stop.
+    fn verif_before(&mut self, i: usize, instruction: &Instruction) -> bool {
+        if let Some(mut monitor) = self.verif_monitor.take() {
+            let depths = self.verif_depths();
+            let stop = monitor.on_instruction(
+                i,
+                instruction,
+                &depths,
+                self.register_stack.last().unwrap().verif_a(),
+                &super::verif::ErrorState {
+                    last_error_code: self.last_error_code,
+                    last_error_address: self.last_error_address,
+                },
+                &self.context,
+            );
+            self.verif_monitor = Some(monitor);
+            if stop {
+                self.verif_stopped = true;
+            }
+            stop
+        } else {
+            false
+        }
+    }
+
+    /// Notifies the monitor that the execution ended.
+    pub fn verif_end(&mut self) {
+        if let Some(mut monitor) = self.verif_monitor.take() {
+            let depths = self.verif_depths();
+            monitor.on_end(
+                &depths,
+                self.register_stack.last().unwrap().verif_a(),
+                &self.context,
+            );
+            self.verif_monitor = Some(monitor);
         }
     }
 }
